@@ -548,3 +548,24 @@ Example pad_order :
   map h_name (sort_hooks (hooks_for PreInstall (hooks_of_docs pad_docs))) = ["hd"; "hc"; "hb"; "ha"]
   /\ map h_weight (sort_hooks (hooks_for PreInstall (hooks_of_docs pad_docs))) = [0; 8; 9; 10]%Z.
 Proof. vm_compute. split; reflexivity. Qed.
+
+(* ---- log fetches of an operation: two Job / Pod hooks on pre-install ---- *)
+Definition log_docs : list res :=
+  [ mkRes "Job" "hj" [("a:helm.sh/hook", "pre-install"); ("a:helm.sh/hook-weight", "1");
+                      ("a:helm.sh/hook-output-log-policy", "hook-succeeded, Hook-Failed")];
+    mkRes "Pod" "hp" [("a:helm.sh/hook", "pre-install"); ("a:helm.sh/hook-weight", "02");
+                      ("a:helm.sh/hook-output-log-policy", "hook-succeeded")];
+    mkRes "ConfigMap" "hc" [("a:helm.sh/hook", "pre-install"); ("a:helm.sh/hook-weight", "3");
+                            ("a:helm.sh/hook-output-log-policy", "hook-succeeded,hook-failed")] ].
+
+(* all succeed: logs of the Pod, then of the Job (last to first; nothing for the ConfigMap);
+   the Pod's watch fails: nothing (it does not list hook-failed); the Job's fails: its logs *)
+Example log_fetch_examples :
+  op_levs (hooks_of_docs log_docs) PreInstall PostInstall [("Job/hj", true); ("Pod/hp", true); ("ConfigMap/hc", true)]
+  = [LWatch "Job/hj" true; LWatch "Pod/hp" true; LWatch "ConfigMap/hc" true;
+     LFetch (LogByField "metadata.name=hp"); LOut; LFetch (LogByLabel "job-name=hj"); LOut]
+  /\ op_levs (hooks_of_docs log_docs) PreInstall PostInstall [("Job/hj", true); ("Pod/hp", false)]
+     = [LWatch "Job/hj" true; LWatch "Pod/hp" false]
+  /\ op_levs (hooks_of_docs log_docs) PreInstall PostInstall [("Job/hj", false)]
+     = [LWatch "Job/hj" false; LFetch (LogByLabel "job-name=hj"); LOut].
+Proof. vm_compute. repeat split. Qed.
